@@ -41,6 +41,20 @@ def model_run(ck, name, dev=(), expect_violation=False, export=True, coverage=Fa
     return r
 
 
+def h5_content(path):
+    import h5py
+    out = {}
+
+    def visit(name, obj):
+        if isinstance(obj, h5py.Dataset):
+            v = obj[()]
+            out[name] = v.decode() if isinstance(v, bytes) else np.asarray(v).tolist()
+    with h5py.File(path, "r") as h:
+        h.visititems(visit)
+        out["@attrs"] = {k: (v.decode() if isinstance(v, bytes) else str(v)) for k, v in h.attrs.items()}
+    return out
+
+
 class World:
     """The real objects behind one abstract behaviour."""
 
@@ -71,6 +85,7 @@ class World:
         self.orig = copy.deepcopy(m)
         self.X = r.normal(size=(40, D)) * 2
         self.path = None
+        self.loaded_from = None
         self.n = 0
         self.desc = {"floor_kind": kind, "by": "handle" if handle else "path"}
 
@@ -100,7 +115,15 @@ class World:
                     type(e).__name__, e, self.obj.max_fitting_steps, self.obj.convergence_threshold)
             if op == "SaveRaises":
                 return "Model", "the model (with its deviation) says save raises, the code saved"
+            prev = self.loaded_from
             self.path = p
+            self.loaded_from = None
+            if prev is not None:
+                # saving the object just read from `prev` must produce an equivalent file
+                a, b = h5_content(prev), h5_content(p)
+                if a != b:
+                    diff = sorted(k for k in set(a) | set(b) if a.get(k) != b.get(k))
+                    return "SaveLoadSaveStable", "file written from the reloaded machine differs from the file it was read from in %s" % diff
             return None
         if op == "WriteLegacy":
             import h5py
@@ -146,6 +169,9 @@ class World:
             if op == "Refused":
                 return "MapNeedsUbm", "a MAP machine file was loaded without a UBM (trainer of the result: %r)" % (new.trainer,)
             self.obj = new
+            import h5py
+            with h5py.File(self.path, "r") as h:
+                self.loaded_from = self.path if "file_version" in h.attrs else None
             return self.compare(new, model_to["live"])
         raise ValueError(op)
 
@@ -262,6 +288,42 @@ def run(ck):
                                                      "operations": names, "concretisation": wd.desc, "detail": bad[1]})
         else:
             ck.sample({"mechanism": "M2", "machine": start, "operations": names, "verdict": "ok"})
+    # longer histories: seeded random walks over the state graph (any number of round trips)
+    edge_of = {}
+    for k, d in out.items():
+        for o, e in d.items():
+            edge_of[(key(e["f"]), key(e["orig"]), o)] = e
+    starts = sorted(inits.values(), key=key)
+    for w in range(120 if quick else 1500):
+        st = rng.choice(starts)
+        cur, orig = st["m"], st["orig"]
+        wd = World(em, cur["live"], ck.work, rng, handle=rng.random() < 0.4)
+        names, bad = [], None
+        for step in range(6):
+            opts = [o for (kf, ko, o) in edge_of if kf == key(cur) and ko == key(orig)] if False else \
+                [o for o in ("Save", "SaveRaises", "FromFile", "FromFileNoUbm", "Refused", "LoadInto", "WriteLegacy")
+                 if (key(cur), key(orig), o) in edge_of]
+            if not opts:
+                break
+            # prefer alternating saves and loads
+            o = rng.choice(opts)
+            e = edge_of[(key(cur), key(orig), o)]
+            names.append(o)
+            bad = wd.apply(o, e["t"])
+            if bad:
+                break
+            legacy_load = e["f"]["file"]["fmt"] == "legacy" and o in ("FromFile", "FromFileNoUbm", "LoadInto")
+            cur = e["t"]
+            if legacy_load:
+                orig = e["t"]["live"]
+                wd.orig = copy.deepcopy(wd.obj)
+        ck.replayed += 1
+        ck.seen(["walk", st["m"]["live"], names])
+        if bad:
+            ck.violation("M2:GmmPersist:" + bad[0], {"mechanism": "M2", "module": "GmmPersist", "machine": st["m"]["live"],
+                                                     "operations": names, "concretisation": wd.desc, "detail": bad[1]})
+        else:
+            ck.sample({"mechanism": "M2", "machine": st["m"]["live"], "operations": names, "verdict": "ok"}, limit=9)
     stats_replay(ck, em, rng, 20 if quick else 200)
     fixture(ck, em)
 
